@@ -119,6 +119,16 @@ type readerState struct {
 	removed     map[int64]time.Duration // offsets removed by retention -> when
 	faultsUntil time.Duration
 	timing      bool
+	// concurrent SetOffset (seeker mode): the position is then one of up to
+	// two values until the next delivery tells which
+	alt           int64 // alternative position, -2 = none
+	inFetch       bool
+	seeked        bool    // a SetOffset overlapped the FetchMessage call in progress
+	cands         []int64 // positions the call in progress may still be served from
+	seekInFlight  bool
+	pendingTarget int64
+	fetchRetDuringSeek bool
+	lastDelivered int64
 }
 
 // storedAtOrAfter returns the stored record with the smallest offset >= off
@@ -137,19 +147,34 @@ func (st *readerState) storedAtOrAfter(off int64) (rec *rc.Record, ok bool) {
 	return nil, false
 }
 
-func (st *readerState) checkDelivered(m kafka.Message, callInvoke int) {
-	_ = st.s
-	if m.Topic != st.p.Topic || m.Partition != int(st.p.ID) {
-		st.fail("R1-topic-partition", "delivered message carries %s[%d], reader bound to %s[%d]", m.Topic, m.Partition, st.p.Topic, st.p.ID)
+func (st *readerState) beginFetch() {
+	st.inFetch, st.seeked, st.cands = true, false, nil
+	if st.seekInFlight {
+		// invoked while a SetOffset has not returned yet: not a "later call"
+		st.seeked = true
+		st.cands = append(st.cands, st.pos)
+		if st.alt != -2 {
+			st.cands = append(st.cands, st.alt)
+		}
 	}
-	from := st.pos
-	if st.pos < 0 {
+}
+
+func (st *readerState) endFetch() { st.inFetch, st.seeked, st.cands = false, false, nil }
+
+// matchFrom checks m against the reader being positioned at `pos` (-1: the
+// pending relative start); it returns the rule and text of the first
+// discrepancy, or "" when m is exactly what a reader at that position delivers.
+func (st *readerState) matchFrom(pos int64, m kafka.Message) (rule, msg string) {
+	if m.Topic != st.p.Topic || m.Partition != int(st.p.ID) {
+		return "R1-topic-partition", fmt.Sprintf("delivered message carries %s[%d], reader bound to %s[%d]", m.Topic, m.Partition, st.p.Topic, st.p.ID)
+	}
+	from := pos
+	if pos < 0 {
 		// relative start: resolved against the log when the fetcher asked
 		switch st.relKind {
 		case kafka.LastOffset:
 			if m.Offset < st.lo {
-				st.fail("R2-last-offset", "reader positioned at LastOffset (log end was %d when positioned) delivered offset %d", st.lo, m.Offset)
-				return
+				return "R2-last-offset", fmt.Sprintf("reader positioned at LastOffset (log end was %d when positioned) delivered offset %d", st.lo, m.Offset)
 			}
 			from = m.Offset // any resolution point between then and now is legitimate
 			// but it must be a stored record and the first one at/after some log end in [lo, now]
@@ -157,50 +182,101 @@ func (st *readerState) checkDelivered(m kafka.Message, callInvoke int) {
 			from = st.lo
 		}
 	}
-	if st.pos >= 0 && m.Offset < from {
-		st.fail("R1-rewind", "delivered offset %d is below the reader's position %d (already delivered or skipped); fetch before the rewind: %s", m.Offset, from, st.rewindDiag())
-		return
+	if pos >= 0 && m.Offset < from {
+		return "R1-rewind", fmt.Sprintf("delivered offset %d is below the reader's position %d (already delivered or skipped); fetch before the rewind: %s", m.Offset, from, st.rewindDiag())
 	}
 	// walk stored records from `from`: every skipped record must have been removed by retention
 	off := from
 	for {
 		rec, ok := st.storedAtOrAfter(off)
 		if !ok {
-			st.fail("R1-fabricated", "delivered offset %d but no stored record at or after position %d", m.Offset, off)
-			return
+			return "R1-fabricated", fmt.Sprintf("delivered offset %d but no stored record at or after position %d", m.Offset, off)
 		}
 		if rec.Offset > m.Offset {
-			st.fail("R1-fabricated", "delivered offset %d (value %q) is not a stored record (next stored record at or after position %d is %d); %s; record with that value: %s; layout: %s", m.Offset, trunc(m.Value), off, rec.Offset, st.batchDiag(rec.Offset), st.valueDiag(m.Value), st.layoutDiag(m.Offset))
-			return
+			return "R1-fabricated", fmt.Sprintf("delivered offset %d (value %q) is not a stored record (next stored record at or after position %d is %d); %s; record with that value: %s; layout: %s", m.Offset, trunc(m.Value), off, rec.Offset, st.batchDiag(rec.Offset), st.valueDiag(m.Value), st.layoutDiag(m.Offset))
 		}
 		if rec.Offset == m.Offset {
 			// field equality
 			if !bytes.Equal(rec.Value, m.Value) || !bytes.Equal(rec.Key, m.Key) {
-				st.fail("R1-content", "offset %d: delivered key/value %q/%q, stored %q/%q", m.Offset, trunc(m.Key), trunc(m.Value), trunc(rec.Key), trunc(rec.Value))
+				return "R1-content", fmt.Sprintf("offset %d: delivered key/value %q/%q, stored %q/%q", m.Offset, trunc(m.Key), trunc(m.Value), trunc(rec.Key), trunc(rec.Value))
 			}
 			if len(rec.Headers) != len(m.Headers) {
-				st.fail("R1-headers", "offset %d: delivered %d headers, stored %d", m.Offset, len(m.Headers), len(rec.Headers))
-			} else {
-				for i := range rec.Headers {
-					if rec.Headers[i].Key != m.Headers[i].Key || !bytes.Equal(rec.Headers[i].Value, m.Headers[i].Value) {
-						st.fail("R1-headers", "offset %d: header %d differs", m.Offset, i)
-					}
+				return "R1-headers", fmt.Sprintf("offset %d: delivered %d headers, stored %d", m.Offset, len(m.Headers), len(rec.Headers))
+			}
+			for i := range rec.Headers {
+				if rec.Headers[i].Key != m.Headers[i].Key || !bytes.Equal(rec.Headers[i].Value, m.Headers[i].Value) {
+					return "R1-headers", fmt.Sprintf("offset %d: header %d differs", m.Offset, i)
 				}
 			}
 			if rec.Timestamp >= 0 && m.Time.UnixMilli() != rec.Timestamp {
-				st.fail("R1-timestamp", "offset %d: delivered time %d ms, stored %d ms", m.Offset, m.Time.UnixMilli(), rec.Timestamp)
+				return "R1-timestamp", fmt.Sprintf("offset %d: delivered time %d ms, stored %d ms", m.Offset, m.Time.UnixMilli(), rec.Timestamp)
 			}
-			break
+			return "", ""
 		}
 		// rec.Offset < m.Offset: skipped
 		if _, gone := st.removed[rec.Offset]; !gone {
-			st.fail("R1-skipped", "delivered offset %d while stored record %d (at or after position %d) was never delivered", m.Offset, rec.Offset, from)
-			return
+			return "R1-skipped", fmt.Sprintf("delivered offset %d while stored record %d (at or after position %d) was never delivered", m.Offset, rec.Offset, from)
 		}
 		off = rec.Offset + 1
 	}
-	st.pos = m.Offset + 1
-	st.delivered++
+}
+
+// checkDelivered checks a message returned by FetchMessage and advances the
+// model's position. A call that overlapped a SetOffset from another goroutine
+// may have been served from the position before it or from its target; calls
+// made after SetOffset returned are served from its target.
+func (st *readerState) checkDelivered(m kafka.Message, callInvoke int) {
+	defer func() {
+		st.delivered++
+		st.lastDelivered = m.Offset
+	}()
+	if !st.seeked && !st.seekInFlight {
+		rule, msg := st.matchFrom(st.pos, m)
+		if rule != "" && st.alt != -2 {
+			// the earlier ambiguity resolves the other way
+			if r2, _ := st.matchFrom(st.alt, m); r2 == "" {
+				rule = ""
+				st.s.Count("seek-ambiguity-resolved")
+			}
+		}
+		if rule != "" {
+			st.fail(rule, "%s", msg)
+			return
+		}
+		st.pos, st.alt = m.Offset+1, -2
+		return
+	}
+	// overlapped by one or more SetOffset calls
+	target := st.pos
+	old := append([]int64(nil), st.cands...)
+	if st.seekInFlight {
+		// not yet returned: the current model position is still an old one
+		old = append(old, st.pos)
+		if st.alt != -2 {
+			old = append(old, st.alt)
+		}
+		target = st.pendingTarget
+		st.fetchRetDuringSeek = true
+	}
+	matchedOld := false
+	for _, c := range old {
+		if r, _ := st.matchFrom(c, m); r == "" {
+			matchedOld = true
+		}
+	}
+	ruleNew, msgNew := st.matchFrom(target, m)
+	st.s.Count("fetch-overlapped-by-setoffset")
+	switch {
+	case matchedOld && ruleNew == "":
+		st.pos, st.alt = m.Offset+1, target
+	case matchedOld:
+		st.pos, st.alt = target, -2 // a delivery from before the SetOffset does not move the new position
+		st.s.Count("stale-delivery-after-setoffset")
+	case ruleNew == "":
+		st.pos, st.alt = m.Offset+1, -2
+	default:
+		st.fail(ruleNew, "FetchMessage overlapped by SetOffset(%d) from another goroutine (positions before it: %v) matches neither: %s", target, old, msgNew)
+	}
 }
 
 func readerScenario(s *Sim, params map[string]string) {
@@ -256,7 +332,13 @@ func readerScenario(s *Sim, params map[string]string) {
 	genLog(t, cl, p, lo, start, t.Range("cfg", 0, 12), "r")
 	cl.TruncateAtMaxBytes = t.Intn("cfg", 2) == 0
 
-	st := &readerState{s: s, cl: cl, p: p, removed: map[int64]time.Duration{}}
+	st := &readerState{s: s, cl: cl, p: p, removed: map[int64]time.Duration{}, alt: -2, lastDelivered: -1}
+	// seeker mode: SetOffset is called from a second goroutine while the
+	// consumer may be blocked in FetchMessage
+	seeker := t.Intn("cfg", 4) == 0
+	if v, ok := params["seeker"]; ok {
+		seeker = v == "1"
+	}
 	fmode := t.Intn("cfg", 5)
 	if v, ok := params["faults"]; ok {
 		fmt.Sscan(v, &fmode)
@@ -341,8 +423,11 @@ func readerScenario(s *Sim, params map[string]string) {
 	}
 	// NewReader without group starts at FirstOffset
 	setPos(kafka.FirstOffset)
-	if t.Intn("cfg", 2) == 0 {
+	if t.Intn("cfg", 2) == 0 || seeker {
 		o := pickOffset()
+		if seeker && o < 0 {
+			o = p.LogStart // (absolute positions only in seeker mode)
+		}
 		if err := r.SetOffset(o); err != nil {
 			s.Fail("C02", "R2-setoffset-error", "SetOffset(%d): %v", o, err)
 		}
@@ -392,11 +477,54 @@ func readerScenario(s *Sim, params map[string]string) {
 		})
 	}
 
+	seekersLeft := 0
+	if seeker {
+		seekersLeft = 1
+		nseek := t.Range("work", 1, 6)
+		s.Go("seeker", func() {
+			defer func() { seekersLeft = 0 }()
+			for i := 0; i < nseek && !s.Failed(); i++ {
+				s.Sleep(time.Duration(t.Range("work", 0, 1500)) * time.Millisecond)
+				o := pickOffset()
+				if o < 0 || t.Intn("work", 2) == 0 {
+					// "resume right after the record I just got"
+					o = st.lastDelivered + 1
+					if o < p.LogStart {
+						o = p.LogStart
+					}
+				}
+				st.seekInFlight, st.pendingTarget, st.fetchRetDuringSeek = true, o, false
+				if st.inFetch {
+					st.seeked = true
+					st.cands = append(st.cands, st.pos)
+					if st.alt != -2 {
+						st.cands = append(st.cands, st.alt)
+					}
+				}
+				err := r.SetOffset(o)
+				st.seekInFlight = false
+				if err != nil {
+					s.Fail("C02", "R2-setoffset-error", "SetOffset(%d): %v", o, err)
+					return
+				}
+				if !st.fetchRetDuringSeek {
+					st.pos, st.alt = o, -2
+				}
+				s.Tracef("seeker SetOffset(%d) -> pos=%d alt=%d (in fetch: %v)", o, st.pos, st.alt, st.inFetch)
+				s.Count("setoffset")
+				s.Count("setoffset-concurrent")
+			}
+		})
+	}
 	nops := t.Range("work", 3, 40)
 	drained := false
 	s.Go("consumer", func() {
 		for i := 0; i < nops; i++ {
-			switch t.Intn("work", 10) {
+			op := t.Intn("work", 10)
+			if seeker && op == 0 {
+				op = 2 // SetOffset is the other goroutine's business
+			}
+			switch op {
 			case 0:
 				o := pickOffset()
 				if err := r.SetOffset(o); err != nil {
@@ -412,15 +540,17 @@ func readerScenario(s *Sim, params map[string]string) {
 			default:
 				ctx, cancel := context.WithTimeout(context.Background(), time.Duration(t.Range("work", 50, 3000))*time.Millisecond)
 				inv := s.Step
+				st.beginFetch()
 				m, err := r.FetchMessage(ctx)
 				cancel()
-				s.Tracef("op FetchMessage -> off=%d err=%v (pos=%d)", m.Offset, err, st.pos)
+				s.Tracef("op FetchMessage -> off=%d err=%v (pos=%d alt=%d seeked=%v)", m.Offset, err, st.pos, st.alt, st.seeked)
 				if err == nil {
 					st.checkDelivered(m, inv)
 					s.Count("ops")
 				} else {
 					s.Count("fetch-error")
 				}
+				st.endFetch()
 			}
 			if s.Failed() {
 				return
@@ -435,6 +565,13 @@ func readerScenario(s *Sim, params map[string]string) {
 			tail := st.pos
 			if st.pos < 0 {
 				tail = st.lo
+			}
+			if st.alt > tail {
+				tail = st.alt // (the weaker of the two claims while the position is ambiguous)
+			}
+			if seekersLeft > 0 {
+				s.Sleep(100 * time.Millisecond)
+				continue
 			}
 			rec, more := st.storedAtOrAfter(tail)
 			if st.pos < 0 && st.relKind == kafka.LastOffset {
@@ -463,13 +600,17 @@ func readerScenario(s *Sim, params map[string]string) {
 			}
 			ctx, cancel := context.WithTimeout(context.Background(), 30*time.Second)
 			inv := s.Step
+			st.beginFetch()
 			m, err := r.FetchMessage(ctx)
 			ctxErr := ctx.Err()
 			cancel()
-			s.Tracef("drain FetchMessage -> off=%d err=%v (pos=%d)", m.Offset, err, st.pos)
+			s.Tracef("drain FetchMessage -> off=%d err=%v (pos=%d alt=%d seeked=%v)", m.Offset, err, st.pos, st.alt, st.seeked)
 			if err == nil {
 				st.checkDelivered(m, inv)
 				s.Count("ops")
+			}
+			st.endFetch()
+			if err == nil {
 			} else if ctxErr != nil {
 				if more {
 					s.Fail("C02", "R3-stuck", "no message within 30 simulated seconds although records at or after offset %d are stored (log end %d), faults stopped at %v, now %v; %s%s", tail, p.LEO, st.faultsUntil, s.Now(), st.lastFetchDiag(), st.stuckCause())
